@@ -74,6 +74,8 @@ def _check_1d(desc, tier, V, st):
             RL = np.array([S.row(x, der, 'left') if float(x) in interior else S.row(x, der) for x in X])
         ref[der] = (R, RL)
     nc = S.nc
+    rev = np.arange(len(X))[::-1]
+    scr = np.array(sorted(range(len(X)), key=lambda i: (i * 7919 + 13) % (len(X) + 1 if (len(X) + 1) % 7919 else len(X) + 2)))
     vecs = [('e%d' % j, np.eye(nc)[j]) for j in range(nc)]
     vecs.append(('ones', np.ones(nc)))
     vecs.append(('dense', np.array([((7 * j * j + 3 * j) % 11) - 5.0 for j in range(nc)])))
@@ -103,6 +105,20 @@ def _check_1d(desc, tier, V, st):
                 ok, info = agree(y, c, der)
                 if not ok:
                     V('1d-eval_vector:der%d' % der, '%s coeffs=%s: Spline1D.eval_vector(der=%d) off by %.3g at x=%r' % (key, name, der, info[0], info[1]))
+                # the order of the points in an array must not matter: decreasing and scrambled arrays
+                for oname, o in (('decreasing', rev), ('scrambled', scr)):
+                    yo = np.full(len(X), np.nan)
+                    spl.eval_vector(np.ascontiguousarray(X[o]), yo, der)
+                    back = np.empty(len(X))
+                    back[o] = yo
+                    ok, info = agree(back, c, der)
+                    ga = np.empty(len(X))
+                    ga[o] = np.asarray(spl.eval(np.ascontiguousarray(X[o]), der), dtype=float)
+                    ok2, info2 = agree(ga, c, der)
+                    st['evals'] += 2
+                    if not (ok and ok2):
+                        V('1d-array-order-dependent:der%d' % der, '%s coeffs=%s: array entry points give wrong values for a %s array of points (off by %.3g)' % (
+                            key, name, oname, max(info[0], info2[0])))
                 sc = np.array([spl.eval(float(x), der) for x in X])
                 ok, info = agree(sc, c, der)
                 if not ok:
@@ -271,6 +287,12 @@ def _check_2d(da, db, tier, V, st):
                 sp.eval_vector(Xs, Ys, z, d1, d2)
                 if np.abs(z - want).max() > t:
                     V('2d-eval_vector:der%d%d' % (d1, d2), '%s dense: Spline2D.eval_vector(der=(%d,%d)) off by %.3g' % (key, d1, d2, np.abs(z - want).max()))
+                ox = np.array(sorted(range(len(Xs)), key=lambda i: (i * 7919 + 13) % 10007))[::-1]
+                oy = np.array(sorted(range(len(Ys)), key=lambda i: (i * 104729 + 5) % 10007))
+                zo = np.full(want.shape, np.nan)
+                sp.eval_vector(np.ascontiguousarray(Xs[ox]), np.ascontiguousarray(Ys[oy]), zo, d1, d2)
+                if np.abs(zo - want[np.ix_(ox, oy)]).max() > t:
+                    V('2d-array-order-dependent:der%d%d' % (d1, d2), '%s dense: Spline2D.eval_vector on scrambled point arrays off by %.3g' % (key, np.abs(zo - want[np.ix_(ox, oy)]).max()))
                 sc = np.array([[sp.eval(float(x), float(y), d1, d2) for y in Ys] for x in Xs])
                 if np.abs(sc - want).max() > t:
                     V('2d-eval-scalar:der%d%d' % (d1, d2), '%s dense: Spline2D.eval(scalars,der=(%d,%d)) off by %.3g' % (key, d1, d2, np.abs(sc - want).max()))
